@@ -404,7 +404,17 @@ class MultiMapping(typing.Generic[KT, VT], typing.Mapping[KT, VT]):
     def __eq__(self, other: typing.Any) -> bool:
         if not isinstance(other, self.__class__):
             return False
-        return sorted(self._list) == sorted(other._list)
+        if len(self._list) != len(other._list):
+            return False
+        # same pairs regardless of order; values only need `==` (an UploadFile
+        # can be neither ordered nor, in general, hashed)
+        rest = list(other._list)
+        for item in self._list:
+            try:
+                rest.remove(item)
+            except ValueError:
+                return False
+        return True
 
     def __repr__(self) -> str:
         class_name = self.__class__.__name__
